@@ -279,7 +279,7 @@ def main():
         payload = {"property": pid, "obligation": u["unit"] + "/*", "unit": u["unit"], "kind": "undecided-unit", "solver": "no VC generated: " + u["reason"],
                    "model": None, "repo": repo, "native": None}
         json.dump(payload, open(rp, "w"), indent=1, default=str)
-        h = run_harness(pid, "replay", rp, repo, seed)
+        h = run_replay(pid, rp, repo, seed)
         if h and h["rc"] == 1:
             payload = json.load(open(rp))
             payload["native"] = h
